@@ -3,8 +3,8 @@ import itertools, random
 from vlib import core, corr
 
 AREA = "C19"
-MODULES = ["TinsModel.Props.C19"]
-AUDIT = "Audit/C19.lean"
+MODULES = ["TinsModel.Props.C19", "TinsModel.Props.Limits.C19"]   # + the constants / limits tied to the source (translator/gen_limits.py)
+AUDIT = ["Audit/C19.lean", "Audit/LimitsC19.lean"]
 LEVEL = "proof"
 HARNESS = "c19_acktracker"
 CASE_START = ("init", "finit", "new")
@@ -288,6 +288,8 @@ def oracle_counts(chk, exe, ops):
 
 
 def run(chk):
+    from translator import gen_limits
+    gen_limits.main([])          # Gen/Limits.lean: constants and limits read from the current source
     problems = chk.prove(MODULES, AUDIT, want_leanchecker=(chk.tier == "thorough"))
     exe, err = core.build_harness(HARNESS)
     if exe is None:
